@@ -15,6 +15,7 @@ def run(F, G, tier, seed):
     scopes.resolve_rules(chk, F)
     scopes.run_dotid(chk, F, G)
     scopes.run_memberscope(chk, F)
+    scopes.run_dynkey(chk, F)
     scopes.push_parent(chk, F)
     scopes.no_symbol_cache(chk, F)
     # P.x in queries: the type of x is taken with P's arguments substituted, i.e. through instance_t::mapping
